@@ -276,12 +276,41 @@ def push (h : HState) (r : State × Ret) : HState :=
 
 def skip (h : HState) (s : String) : HState := { h with ids := none :: h.ids, out := s :: h.out }
 
+/-- what Marshal returns (Proofs/OwnOps `specEncode`) -/
+def specText (o : Opts) (v : Val) : Option Bytes :=
+  (render v).map fun t => if o.escapeHTML then htmlEscape t else t
+
+/-- text of the re-entrant encodings `J` / `K` (go/harness/ops_own.go `ownNestT`): the field's
+    MarshalJSON / MarshalText output sits inside the outer object, `depth + 1` times -/
+def nestText (text : Bool) : Nat → Bytes → Bytes
+  | 0, inner => wrap inner
+  | d + 1, inner => nestText text d (wrap inner)
+where
+  wrap (inner : Bytes) : Bytes :=
+    asciiBytes "{\"a\":42,\"b\":\"inner-value\",\"inner\":" ++ (if text then Str.quote inner else inner) ++
+    asciiBytes ",\"tail\":\"the-end\"}"
+
+/-- a call the heap model does not step through (two live buffers in one goroutine, callbacks):
+    its expected bytes are those of `output_independent_of_pool_state` -/
+def expect (h : HState) (t : Option Bytes) : HState :=
+  match t with
+  | none => skip h "E"
+  | some b => skip h (hex64 (fnv64 b))
+
 def histCall (c : Ctx) (h : HState) (call : String) : HState :=
   match splitBar call with
   | [k, o, v] =>
     if k == "M" || k == "S" then
       match optsOf o, valOf v with
       | some o, some v => push h (step c h.st (.marshal o v 1 1))
+      | _, _ => skip h "?"
+    else if k == "D" then
+      match optsOf o, valOf v with
+      | some o, some v => expect h (specText o v)
+      | _, _ => skip h "?"
+    else if k == "Z" then
+      match optsOf o, valOf v with
+      | some o, some v => expect h ((specText o v).map fun t => t ++ [10] ++ t ++ [10])
       | _, _ => skip h "?"
     else skip h "?"
   | [k, o, pre, ind, v] =>
@@ -291,7 +320,12 @@ def histCall (c : Ctx) (h : HState) (call : String) : HState :=
       | _, _, _, _ => skip h "?"
     else skip h "?"
   | [k, o, t, v] =>
-    if k == "E" then
+    if k == "J" || (k == "K" && t == "0") then
+      -- J|<depth>|<opts>|<val>
+      match natOf o.toList, optsOf t, valOf v with
+      | some d, some o, some v => expect h ((specText o v).map (nestText (k == "K") d))
+      | _, _, _ => skip h "?"
+    else if k == "E" then
       match optsOf o, parseTarget h t, valOf v with
       | some o, some tg, some v =>
         let h1 := match t.toList with
